@@ -47,18 +47,22 @@ def ensure_ter(entries, allow_open_hetero=False):
 def check_case(case):
     ta, tb = case["part_a"], case["part_b"]
     union = ta + tb if case["order"] == "AB" else tb + ta
-    ru = observe.run(union, [], name="a")
+    opt = []
+    if case.get("cfgspec"):
+        from vlib import cfgs
+        opt = cfgs.options(case["cfgspec"])
+    ru = observe.run(union, opt, name="a")
     v = []
-    labels = ["order:" + case["order"], "band:" + case.get("band", "?")]
+    labels = ["order:" + case["order"], "band:" + case.get("band", "?")] + (["parameter-variant"] if opt else [])
     if ru["error"]:
-        ra = observe.run(ta, [], name="a")
-        rb = observe.run(tb, [], name="a")
+        ra = observe.run(ta, opt, name="a")
+        rb = observe.run(tb, opt, name="a")
         if not ra["error"] and not rb["error"]:
             return [{"clause": "union-runs-without-error", "detail": "union: %r" % (ru["error"],)}], {"labels": labels}
         return [], {"labels": labels + ["part-error"]}
     nontrivial = True
     for part, text in (("A", ta), ("B", tb)):
-        rp = observe.run(text, [], name="a")
+        rp = observe.run(text, opt, name="a")
         if rp["error"]:
             v.append({"clause": "part-alone-runs", "detail": "part %s alone: %r but union ran" % (part, rp["error"])})
             continue
@@ -161,18 +165,24 @@ def pair_cases(draw, quick):
     real_gap = max(b0[axis] - a1[axis], a0[axis] - b1[axis])
     ok = ok and real_gap >= 25001
     order = draw(st.sampled_from(["AB", "BA"]))
-    return sa, pdbio.write(ea), pdbio.write(eb), order, band, mode, real_gap, ok
+    spec = None
+    if draw(st.integers(0, 4)) == 0:
+        # other switches and cut-offs of the parameter file; runs with different files alternate within one process
+        spec = {"changes": draw(st.sampled_from([
+            {"common_charge_centre": "1"}, {"common_charge_centre": "1", "shared_determinants": "1"},
+            {"desolv_cutoff": "24.0", "buried_cutoff": "18.0"}, {"coulomb_cutoff2": "14.0"}]))}
+    return sa, pdbio.write(ea), pdbio.write(eb), order, band, mode, real_gap, ok, spec
 
 
 def run_shard(ctx):
     quick = ctx.tier == "quick"
 
     def body(t):
-        sa, ta, tb, order, band, mode, gap, ok = t
+        sa, ta, tb, order, band, mode, gap, ok, spec = t
         if not ok:
             ctx.labels["skipped:does-not-fit"] += 1
             return
-        case = {"part_a": ta, "part_b": tb, "order": order, "band": band}
+        case = {"part_a": ta, "part_b": tb, "order": order, "band": band, "cfgspec": spec}
         v, info = check_case(case)
         info["labels"] = info.get("labels", []) + ["mode:" + mode]
         info["sample"] = {"part_a": sa.summary(), "mode": mode, "gap_A": gap / 1000.0, "order": order,
@@ -199,3 +209,23 @@ def run_shard(ctx):
                               "band": c["band"]}
             ctx.account(c, v, info)
         ctx.loop_stage("F4-regression", items, one)
+
+    # the reference file with one coupled ligand per chain, split into its chains 300 A apart, under the common charge
+    # centre / sharing switches
+    if True:
+        ents = [e for e in pdbio.parse(gen.corpus_text("4DFR")) if isinstance(e, Atom) and e.resn != "HOH"]
+        pa = ensure_ter([e for e in ents if e.chain == "A"])
+        pb = ensure_ter(pdbio.move([e for e in ents if e.chain == "B"], pdbio.ROTATIONS[0], (300000, 0, 0)))
+        items = []
+        for changes in ({"common_charge_centre": "1"}, {"common_charge_centre": "1", "shared_determinants": "1"},
+                        {"shared_determinants": "1", "remove_penalised_group": "0"}):
+            for order in ("AB", "BA"):
+                items.append({"part_a": pdbio.write(pa), "part_b": pdbio.write(pb), "order": order, "band": "100-999",
+                              "cfgspec": {"changes": changes}})
+
+        def two(c):
+            v, info = check_case(c)
+            info["sample"] = {"part_a": "corpus 4DFR chain A + MTX", "part_b": "chain B + MTX, 300 A away",
+                              "cfgspec": c["cfgspec"], "order": c["order"]}
+            ctx.account(c, v, info)
+        ctx.loop_stage("coupled-ligand-per-part", [items[i] for i in ctx.my_slice(len(items))], two)
